@@ -66,7 +66,23 @@ def c09():
     return S
 
 
-SCEN = {"C09": c09}
+def c18():
+    """upgrade in the middle of histories: refundable value recoverable before the upgrade is recoverable after"""
+    S = []
+    mig = {"m": "migrate_roundtrip"}
+    for run, tre in ((1, False), (2, True)):
+        S += start(run, treasury="treasury" if tre else "")
+        S += [mig,                                                     # empty maps
+              stake("u1", 100), mig,                                   # one packet in flight
+              stake("u2", 60), stake("u1", 30), ack(1, "err"), ack(2, "timeout"), mig,   # ackfail + timeout + sent
+              recover("u3"), mig,                                      # recovered after the upgrade, re-sent packet tracked
+              ack(3), ack(4, "err"), rewards(40), mig, recover("u1"), ack(5), ack(6), ack(7) if not tre else ack(7),
+              unstake("u1", 50), dt(100), submit(), mig, dt(1000), unstaked(1, 50, limited=False), withdraw("u1", 1), mig,
+              stake("u2", 10, mint_to="n:u2"), mig]                    # an LST packet to a user: not expressible, refused by the harness
+    return S
+
+
+SCEN = {"C09": c09, "C18": c18}
 
 if __name__ == "__main__":
     os.makedirs(OUT, exist_ok=True)
